@@ -20,7 +20,7 @@ RULE = (
     "ordered pair, both operands non-empty; plus Hypothesis-drawn pairs of configurations of one family (differences in several parameters, "
     "or none). Oracle: if the pair differs in a listed parameter merge raises TypeError and the full public state of both operands is "
     "bit-for-bit unchanged; otherwise (incl. heavy hitters differing only in phi, count-min built through CountMin() vs the class, loaded vs "
-    "fresh) merge raises nothing. All evaluations are non-trivial (both operands non-empty). Distinct = distinct ordered configuration pair."
+    "fresh, instances of trivial user subclasses of the sketch classes) merge raises nothing. All evaluations are non-trivial (both operands non-empty). Distinct = distinct ordered configuration pair."
 )
 ASSUMPTIONS = ["'differ' is judged on the constructor arguments listed in the property; phi is not a merge parameter"]
 
@@ -43,8 +43,8 @@ def differs(a, b):
 
 
 def check_pair(ca, cb, variant=0):
-    """variant 1: build count-min operands through CountMin(); variant 2: second operand is a loaded copy"""
-    A = build(ca, variant)
+    """variant 1: build count-min operands through CountMin(); variant 2: second operand is a loaded copy; variant 3: operands are instances of trivial user subclasses"""
+    A = build(ca, variant if variant != 3 or len(repr(cb)) % 2 else 0)  # variant 3: the argument, or both, are subclass instances
     B = build(cb, variant)
     fill(A, ca["kind"], 0)
     fill(B, cb["kind"], 1)
@@ -89,7 +89,15 @@ def build(cfg, variant):
         if cfg["kind"] == "linear":
             return CountMin("linear", cfg["width"], cfg["depth"])
         return CountMin(cfg["kind"], cfg["width"], cfg["depth"], cfg["max_count"], cfg["num_reserved"])
-    return make_sketch(cfg)
+    sk = make_sketch(cfg)
+    if variant == 3:
+        # an instance of a trivial user subclass (class DailySketch(CountMinLinear): pass) with the same parameters
+        cls = type(sk)
+        sk.__class__ = _SUBCLASSES.setdefault(cls, type("User" + cls.__name__, (cls,), {}))
+    return sk
+
+
+_SUBCLASSES = {}
 
 
 def grid(seed):
@@ -157,7 +165,7 @@ def _shard(arg):
                    st.sampled_from([1, 4, 16, 255]), st.sampled_from([None, 0.5, 1.0]))
     pairs = st.one_of(st.tuples(cms, cms), st.tuples(hll, hll), st.tuples(hh, hh))
 
-    @given(pair=pairs, variant=st.sampled_from([0, 0, 1, 2]))
+    @given(pair=pairs, variant=st.sampled_from([0, 0, 1, 2, 3]))
     def test(pair, variant):
         case = {"a": pair[0], "b": pair[1], "variant": variant}
         holder["case"] = case
@@ -170,10 +178,10 @@ def _shard(arg):
 
 def run(tier, seed, rec):
     fams = grid(common.derive_seed(seed, "C15-grid"))
-    jobs = [(f, v) for f in fams for v in (0, 1, 2)]
+    jobs = [(f, v) for f in fams for v in (0, 1, 2, 3)]
     common.pool_merge(_grid_task, jobs, rec)
     if not rec.violations:
-        rec.exhaustive.append("every ordered pair within each one-parameter-difference family (3 base configurations per sketch family, 3 construction variants)")
+        rec.exhaustive.append("every ordered pair within each one-parameter-difference family (3 base configurations per sketch family, 4 construction variants)")
     total, shards = (1600, 16) if tier == "quick" else (32000, 32)
     common.pool_merge(_shard, [(seed, i, total // shards) for i in range(shards)], rec)
 
